@@ -111,4 +111,19 @@ def make_trades_raises(ob):
 
 make_trades_raises.kind = "make_trades_raises"
 
-TABLE = {f.kind: f for f in (make_trades_raises, transact_nlv_delta, holdings_values_liquidation, accrued_interest_query)}
+def null_action_in_space(ob):
+    """C08: the null action used to fill the delay line must be an element of the action space"""
+    from tradingenv.spaces import DiscretePortfolio, BoxPortfolio
+    from tradingenv.contracts import ETF
+    cs = [ETF("A"), ETF("B")]
+    out = {}
+    for name, sp in (("DiscretePortfolio", DiscretePortfolio(cs, [[0, 0], [1, 0], [0, 1]])), ("BoxPortfolio", BoxPortfolio(cs, -1, 1))):
+        a = sp.null_action()
+        out[name] = {"null_action": repr(a), "type": type(a).__name__, "in_space": bool(a in sp)}
+    bad = [n for n, v in out.items() if not v["in_space"]]
+    return {"reproduced": bool(bad), "clause": "null_action() in action_space", "spaces": out, "not_in_space": bad}
+
+
+null_action_in_space.kind = "null_action_in_space"
+
+TABLE = {f.kind: f for f in (null_action_in_space, make_trades_raises, transact_nlv_delta, holdings_values_liquidation, accrued_interest_query)}
